@@ -43,12 +43,12 @@ theorem random_fill_bytes (buf : Pod) :
 
 /-- **`random_bytes::<T>()`** is one `Rng::fill_bytes` call over exactly `size_of::<T>()` bytes, whatever the size - no word-sized shortcut -/
 theorem random_random_bytes (sizeT : BitVec 64) :
-    Random.random_bytes R (fun R => util.random_bytes R sizeT util.fill_bytes_uninit) = (R.fill_bytes sizeT >>= fun _ => pure ⟨sizeT⟩) := by
+    Random.random_bytes R (fun R => util.random_bytes R sizeT util.fill_bytes_uninit) = (R.fill_bytes sizeT >>= fun _ => pure (uninit sizeT)) := by
   simp [Random.random_bytes, util.random_bytes, util.fill_bytes_uninit, from_raw_parts_mut, from_mut, uninit, Pod.assume_init]
 
 /-- `util::getrandom::<T>()`: one entropy request over the whole value -/
 theorem util_getrandom (sizeT : BitVec 64) (ge : Pod → m Unit) :
-    util.getrandom sizeT ge = (ge ⟨sizeT⟩ >>= fun _ => pure ⟨sizeT⟩) := by
+    util.getrandom sizeT ge = (ge (uninit sizeT) >>= fun _ => pure (uninit sizeT)) := by
   simp [util.getrandom, from_mut, uninit, Pod.assume_init]
 
 /-- **the trait's default float methods**: one `next_u32` / `next_u64` of the SAME generator, through `rng_f32` / `rng_f64` -/
@@ -119,6 +119,20 @@ theorem wordgen_fill_bytes_is_model (s : σ) (L : BitVec 64) :
     show List.map C10.toWrite ([] ++ (Effect.rng_fill_bytes g.u64 s L).1) = _
     rw [List.nil_append]
     exact h.2.2.1
+
+/-- the word generator as `Random<G>` sees it: its `fill_bytes` is the TRANSLATED clone / `rng_fill_bytes` / write-back wrapper -/
+def ofWordGenW : Rng (StateM (WS σ)) σ :=
+  { ofWordGen g with fill_bytes := fun L => Xoshiro256.fill_bytes (ofWordGen g) (fillOn g) (assign g) L }
+
+/-- **end to end, from the public API to the stores**: `Random::fill_bytes(buf)` on a word generator - `Random`'s wrapper, `util::fill_bytes`'s
+cast to bytes, the generator's clone / fill / write-back, `rng_fill_bytes`' pointer loop, all as translated from the source - returns the
+destination, stores exactly the model's `rngFillWrites` over `size_of_val(buf)` bytes and leaves the generator in the model's state -/
+theorem api_fill_bytes_is_model (s : σ) (buf : Pod) :
+    (Random.fill_bytes (ofWordGenW g) util.fill_bytes buf (s, [])).1 = buf ∧
+    (Random.fill_bytes (ofWordGenW g) util.fill_bytes buf (s, [])).2.1 = (rngFillWrites g s 0 buf.size_of_val.toNat).2 ∧
+    (Random.fill_bytes (ofWordGenW g) util.fill_bytes buf (s, [])).2.2.map C10.toWrite = (rngFillWrites g s 0 buf.size_of_val.toNat).1 := by
+  have h := wordgen_fill_bytes_is_model g s buf.size_of_val Xoshiro256.fill_bytes (by simp)
+  exact ⟨rfl, h.1, h.2⟩
 
 theorem wordgen_fill_empty (s : σ) : (rngFillWrites g s 0 0) = ([], s) := by
   unfold rngFillWrites; simp
